@@ -72,7 +72,7 @@ func (c *Ctx) Label(s string) { c.labels = append(c.labels, s) }
 func (c *Ctx) Labelf(format string, a ...any) {
 	c.labels = append(c.labels, fmt.Sprintf(format, a...))
 }
-func (c *Ctx) NonTrivial()       { c.nontrivial = true }
+func (c *Ctx) NonTrivial()          { c.nontrivial = true }
 func (c *Ctx) SetNonTrivial(b bool) { c.nontrivial = c.nontrivial || b }
 
 // Sub records one enumerated position inside the case (fault position, damaged copy, crash image).
